@@ -10,8 +10,9 @@ TRANSLATOR_UNITS = ["wiring"]
 SHARD = 250
 RULE = ("signature trees built with the real API: (1) exhaustive chains of nested interface members "
         "(every In/Out x FlippedSignature-wrapper combination, depth <= 3, sampled at depth 4) and all 1-member / sampled "
-        "2-member signatures over a 32-member alphabet; (2) seeded random trees depth <= 4, <= 4 members per level, dims in "
-        "{(),(1,),(2,),(2,3),(0,)}, shapes unsigned/signed/int/range/enum, inits incl. None and non-representable ones; "
+        "2-member signatures over a 45-member alphabet; (2) seeded random trees depth <= 4, <= 4 members per level, dims in "
+        "{(),(1,),(2,),(2,3),(0,)}, shapes unsigned/signed/int/range/enum, inits incl. None and non-representable ones "
+        "(also in the exhaustive alphabet and the input-only tuples; histogram tag +oor); "
         "for each: members.flatten of sig / sig.flip(), flatten(obj)+is_compliant for create / flip().create / flipped(), "
         "metadata, connect on tuples of 2-4 interfaces (statements added + simulation), every single-point corruption "
         "(drop/rename member, width, init, flip a leaf or an interface, port<->interface, dims, several outputs, constants, "
@@ -290,6 +291,10 @@ def alphabet():
              ["p", 1, ["u", 2], 1, []], ["p", 0, ["u", 1], None, [2]], ["p", 1, ["u", 1], 0, [2]],
              ["p", 0, ["u", 3], None, [0]], ["p", 1, ["u", 1], None, [2, 3]]]
     inner = [[["a", ports[0]]], [["a", ports[1]]], [["a", ports[0]], ["b", ports[3]]]]
+    # initial values that are not representable in the port's shape (brought into the shape like Signal(init=) does)
+    ports += [["p", 0, ["u", 2], 5, []], ["p", 1, ["s", 2], 3, [2]], ["p", 0, ["u", 0], 1, []], ["p", 1, ["u", 3], -1, []],
+              ["p", 0, ["s", 3], -13, []]]
+    inner.append([["a", ports[8]], ["b", ports[9]]])
     ifs = [["i", f, w, s, d] for f in (0, 1) for w in (False, True) for s in inner for d in ([], [2])]
     return ports + ifs
 
@@ -383,7 +388,9 @@ def obj_corruptions(rng, sig, nl=1):
     for (p, fl, (w, sg), init) in rng.sample(lv, min(nl, len(lv))):
         if w == 0:
             continue
-        v = init if fits(["s" if sg else "u", w], init) else 0
+        v = init & ((1 << w) - 1)           # the init of the created Signal: brought into the shape
+        if sg and v >> (w - 1):
+            v -= 1 << w
         other = v + 1 if fits(["s" if sg else "u", w], v + 1) else v - 1
         P = list(p)
         out.append(("const_both", fl, [[P, ["const", w, sg, v]]], [[P, ["const", w, sg, v]]]))
@@ -472,7 +479,7 @@ def gen_cases(tier, seed):
     N = 1200 if thorough else 30
     for i in range(N):
         depth = rng.choice((1, 2, 2, 3, 3, 4))
-        s = rnd_sig(rng, depth, oor=0.04, ifd=rng.random() < 0.4)
+        s = rnd_sig(rng, depth, oor=0.1, ifd=rng.random() < 0.4)
         add_all(s, False, 0.5 if i % 2 == 0 else 0)
     # (3) a leaf that is an input in EVERY argument (no output on it): widths / inits must still agree
     cases += in_only_cases(random.Random(seed * 7919 + 14), thorough)
@@ -531,6 +538,7 @@ def in_only_cases(rng, thorough):
     the input-only leaf differs in width / signedness / init in exactly one argument, or not at all."""
     base_sd, base_init = ["u", 3], 2
     variants = [("equal", ["u", 3], 2), ("width", ["u", 4], 2), ("sign", ["s", 3], 2), ("init", ["u", 3], 3),
+                ("oor_equal", ["u", 3], 10), ("oor_init", ["u", 3], 11), ("oor_sign_equal", ["s", 3], -6),
                 ("width_sign", ["s", 4], 2), ("none_vs_0", ["u", 3], None),
                 ("agg_equal", ["struct", [["x", 1, False], ["y", 2, False]]], {"y": 1}),       # unsigned(3), packed 2
                 ("agg_init", ["struct", [["x", 1, False], ["y", 2, False]]], {"x": 1, "y": 1}),
@@ -578,7 +586,8 @@ def has_agg(c):
 
 def classify(c):
     k = c["k"]
-    tag = ("+agg" if has_agg(c) else "") + ("+kw" if c.get("kw") else "")
+    tag = ("+agg" if has_agg(c) else "") + ("+kw" if c.get("kw") else "") + \
+          ("+oor" if any(has_oor_init(sg) for sg in c["sigs"]) else "")
     if k in ("connect", "compl"):
         return k + ":" + c.get("c", "ok-tuple%d" % len(c["args"])) + tag
     return k + tag
@@ -605,13 +614,9 @@ def known_finding(c, obs, model):
     obs = obs[:io]
     sig = c["sigs"][0]
     if c["k"] == "spec_create":
-        if obs[:1] == [0] and has_oor_init(sig):
-            return "C14-create-init-not-normalised"
         if obs[:2] == [-1, ERR["ETypeErr"]] and has_iface_dims(sig):
             return "C14-flipped-array-of-interfaces"
     if c["k"] == "spec_connect":
-        if obs[:2] == [0, ERR["ENotCompliant"]] and has_oor_init(sig):
-            return "C14-create-init-not-normalised"
         if obs[:2] == [0, ERR["ETypeErr"]] and has_iface_dims(sig):
             return "C14-flipped-array-of-interfaces"
         if obs[:2] == [0, ERR["EAttr"]] and has_iface_dims(sig):
